@@ -185,6 +185,9 @@ class ConstEval:
                     if isinstance(p, tuple) and p[0] == 'g' and p[2] == () and p[1] in gmem:
                         env[ins.res] = gmem[p[1]]
                         continue
+                    if isinstance(p, tuple) and p[0] == 'g' and (p[1], p[2]) in gmem:
+                        env[ins.res] = gmem[(p[1], p[2])]          # a member of a global aggregate given by the caller
+                        continue
                     if isinstance(p, tuple) and p[0] == 'obj' and len(p[2]) == 2 and p[2][0] == 'byte':
                         whole = objects.get(p[1], {}).get(())
                         if isinstance(whole, int) and ins.ty == 'i8' and 0 <= p[2][1] < 8:
@@ -206,6 +209,8 @@ class ConstEval:
                     p = val(ins.ops[1])
                     if isinstance(p, tuple) and p[0] == 'g' and p[2] == ():
                         gmem[p[1]] = val(ins.ops[0])
+                    elif isinstance(p, tuple) and p[0] == 'g' and (p[1], p[2]) in gmem:
+                        gmem[(p[1], p[2])] = val(ins.ops[0])
                     if isinstance(p, tuple) and p[0] == 'obj':
                         o_ = objects.setdefault(p[1], {})
                         o_[(0,) if p[2] == () and (0,) in o_ else p[2]] = val(ins.ops[0])
